@@ -107,6 +107,7 @@ def _mk_unique(routine, attr, fn, n):
         c.param("elements", ("clist", [ELEM] * n))
         c.use = {S + f"Image.{fn}": S + f"Image.{fn}#pure", S + "Image._add_count_to_name": S + "Image._add_count_to_name#pure"}
         c.raises("CouldNotDetermineName")
+        c.also_covers = [S + "Image.sanitize_names_general"]      # inlined: the routine is a thin wrapper around it
         names = [f"elements[{i}].{attr}" for i in range(n)]
         if n > 1:
             c.ensures(f"distinct({', '.join(names)})", "sibling-names-are-pairwise-different")
